@@ -11,7 +11,7 @@ Follows transport.go / protocol/conn.go / protocol/roundtrip.go:
   * `Event.done`     ↔ `roundTrip` returned inside `run`:
                          `ok`      — `ReadResponse` consumed one whole frame (`discardAll`) and its
                                      correlation id equals the one written (`protocol.RoundTrip`);
-                         `errKeep` — `protocol.ErrNoRecord`: frame consumed, error, conn kept;
+                         `errKeep` — `protocol.ErrNoRecord`: the request could not be encoded, nothing was written, conn kept;
                          `err`     — anything else (timeout, EOF, malformed, id mismatch): the loop breaks.
   * `Event.release`  ↔ `(*connGroup).releaseConn` (group mutex): pushed on `idleConns` unless the group is closed.
   * `Event.exit`     ↔ `run` returns (deferred `pc.Close()`).
@@ -106,8 +106,10 @@ def step (s : State) : Event → Option State
                         delivered := if s.abandoned.contains c.cur then s.delivered
                                      else s.delivered ++ [⟨cid, c.idgen, c.cur, c.written - 1, f, c.consumed⟩] }
         else none
-      | .errKeep, _ :: rest =>
-        some { s with conns := upd s.conns cid { c with st := .finished true, stream := rest, consumed := c.consumed + 1 } }
+      | .errKeep, _ =>
+        -- protocol.ErrNoRecord comes from ENCODING the request (a produce request without records): nothing was
+        -- written, no response is due, the conn is as good as before
+        some { s with conns := upd s.conns cid { c with st := .finished true, written := c.written - 1 } }
       | .err, _ => some { s with conns := upd s.conns cid { c with st := .finished false } }
       | _, _ => none
     else none
